@@ -5,6 +5,7 @@ import (
 	"encoding/binary"
 	"errors"
 	"fmt"
+	"io"
 	"log"
 	"net"
 	"net/http"
@@ -235,6 +236,17 @@ func (zns *ZnPMServer) readNamedPipe(pipe *pipe) {
 		var pid int
 		// read packet
 		if err := ReadDataFromNamedPipe(pipeReader, buf); err != nil {
+			// EOF: every worker that had the pipe open is gone (e.g. all of them crashed at the
+			// same moment). That is no reason to give up: wait for the next worker to connect.
+			if err == io.EOF {
+				pipeReader.Close()
+				pipeReader, err = OpenNamedPipeReader(pipe)
+				if err != nil {
+					log.Fatal("[PARENT] Reopen named pipe file error:", err)
+					return
+				}
+				continue
+			}
 			log.Fatalf("[PARENT] read buffer failed: %s", err)
 			continue
 		}
